@@ -1,5 +1,6 @@
 """C01 - closed systems conserve the domain integral (interior face fluxes cancel)."""
 import opscheck
+import opsdrive
 
 CLOSED = ["C01_ClosedDiffusion", "C01_ClosedCentral", "C01_ClosedUpwind", "C01_ClosedDivergence", "C01_ClosedTvd"]
 MID = ["C01_ClosedDiffusionMid", "C01_ClosedCentralMid", "C01_ClosedUpwindMid", "C01_ClosedDivergenceMid",
@@ -40,7 +41,8 @@ def run(tier, seed):
     steps = dict(clauses_for=step_clauses, n_quick=4, n_thorough=40, gen_kw=[{"closed": True}],
                  generator=maxdrive.gen, observe=maxdrive.observe)
     return opscheck.run_property(
-        "C01", tier, seed, design=opscheck.design_ops("C01", None), clauses_for=clauses_for, n_quick=18, n_thorough=150,
+        "C01", tier, seed, design=opscheck.design_ops("C01", None), clauses_for=clauses_for,
+        extra_configs=opsdrive.periodic_systematic_configs("periodic"), n_quick=18, n_thorough=150,
         gen_kw=[{"closed": True}, {"closed": True, "nmax": 2}, {"closed": "periodic"}, {"allow_periodic": False}],
         parts=[steps],
         sig_extra=lambda cl, e, v: ({"periodic": bool(e["obs"].get("periodic_any"))} if cl.startswith("C01_ClosedStep") else {}),
